@@ -267,34 +267,34 @@ def run(chk, only=None):
 
 
 def _sentence_crosscheck(chk, sc, real):
-    """V cross-check (thorough): sentences / mutants of the real grammar parsed by the shipped and by the
-    fresh parser; the two recorded outcomes are compared by TLC (SameOutcome in ParsePairs.tla)."""
+    """V cross-check (thorough): sentences / mutants of the real grammar (SentenceGen.tla) parsed by the
+    shipped and by the fresh module parser; the two recorded outcomes are compared by TLC (ParsePairs.tla)."""
     from . import grammar_gen
-    from compiler.front_end import lr1
-    from compiler.util import parser_types
-    sents = grammar_gen.sentences(chk.seed, 400, 60, scratch=sc)
-    cases = grammar_gen.with_mutants(sents, chk.seed)
+    from . import grammar_cases as gc
+    cap = int(os.environ.get("VERIF_PROCS") or 0)
+    gen = grammar_gen.generate(chk.seed + 17, 700, 60, scratch=sc, mutants=2, procs=min(cap or 6, 6),
+                               add_tlc=lambda r: chk.add_tlc(r, part="sentencegen"))
     recs = []
-    for i, w in enumerate(cases):
-        toks = [parser_types.Token(s, s, None) for s in w]
-        o = []
-        for key in ("cached_module", "fresh_module"):
-            o.append(grammar_gen.outcome_json(real[key].parse(toks)))
-        recs.append({"id": i, "w": w, "a": o[0], "b": o[1]})
+    for i, c in enumerate(gen):
+        o = [gc.parse_outcome(real[key], c["w"]) for key in ("cached_module", "fresh_module")]
+        recs.append({"id": i, "w": c["w"], "a": o[0], "b": o[1]})
     path = sc.file("pairs.json")
     dump_json(path, recs)
-    res = tlc(sc, "ParsePairs", "pairs", invariants=[], env={"CASES_FILE": path}, workers=1, timeout=900)
+    res = tlc(sc, "ParsePairs", "pairs", invariants=["Checked"], env={"CASES_FILE": path}, workers=1, timeout=1800)
     chk.add_tlc(res, part="sentence-crosscheck")
-    bad = [r for r in res.printed_json() if isinstance(r, dict) and r.get("clause")]
-    done = [r for r in res.printed_json() if isinstance(r, dict) and "checked" in r]
-    if not done or done[-1]["checked"] != len(recs):
+    printed = [r for r in res.printed_json() if isinstance(r, dict)]
+    bad = [r for r in printed if r.get("clause")]
+    done = [r for r in printed if "checked" in r]
+    if not res.clean or not done or done[-1]["checked"] != len(recs):
         raise MachineryError("ParsePairs did not consume all cases:\n" + res.error_trace_tail())
     chk.traces += len(recs)
     for r in bad[:5]:
         chk.violation("sentence-crosscheck:" + r["clause"],
-                      "shipped and fresh module parser disagree on token sequence %s" % " ".join(recs[r["id"]]["w"]),
+                      "shipped and freshly generated module parser disagree (%s) on the token sequence: %s" % (
+                          r["clause"], " ".join(recs[r["id"]]["w"])),
                       {"case": recs[r["id"]], "tlc": r})
-    chk.extra["sentence_crosscheck"] = {"cases": len(recs), "accepted": sum(1 for r in recs if r["a"]["ok"])}
+    chk.extra["sentence_crosscheck"] = {"cases": len(recs), "accepted_by_shipped": sum(1 for r in recs if r["a"]["ok"]),
+                                        "with_error_code": sum(1 for r in recs if r["a"]["code"])}
 
 
 def replay(chk, path):
